@@ -9,6 +9,9 @@ import (
 
 // Deterministic sweeps shared by C01 (operator precedence / associativity) and C03 (substring bounds).
 
+// labels are spelled with letters only: they travel through the program under test (also through Batch, where % is special)
+var opName = map[string]string{"+": "add", "-": "sub", "*": "mul", "/": "div", "%": "mod", "==": "eq", "!=": "ne", "<": "lt", "<=": "le", ">": "gt", ">=": "ge", "&&": "and", "||": "or"}
+
 func vr(n string, t ts.Type) ts.Expr { return ts.VarRef{Name: n, Ty: t} }
 
 // c01Sweep: every pair of binary operators over three operands, in the three groupings
@@ -26,17 +29,17 @@ func c01SweepPrograms() []*ts.Program {
 				right := ts.Bin{Op: o1, Ty: ts.TInt, L: a, R: ts.Bin{Op: o2, Ty: ts.TInt, L: b, R: c}}
 				leftG := ts.Bin{Op: o2, Ty: ts.TInt, L: ts.Group{E: ts.Bin{Op: o1, Ty: ts.TInt, L: a, R: b}}, R: c}
 				rightG := ts.Bin{Op: o1, Ty: ts.TInt, L: a, R: ts.Group{E: ts.Bin{Op: o2, Ty: ts.TInt, L: b, R: c}}}
-				stmts = append(stmts, pr(sl(o1+o2), flat, right, leftG, rightG))
+				stmts = append(stmts, pr(sl(opName[o1]+"."+opName[o2]), flat, right, leftG, rightG))
 			}
 		}
 		cmps := []string{"==", "!=", "<", "<=", ">", ">="}
 		for _, o1 := range cmps {
 			for _, o2 := range []string{"+", "-", "*"} {
-				stmts = append(stmts, pr(sl(o1+o2), ts.Cmp{Op: o1, L: ts.Bin{Op: o2, Ty: ts.TInt, L: a, R: b}, R: c}, ts.Cmp{Op: o1, L: a, R: ts.Bin{Op: o2, Ty: ts.TInt, L: b, R: c}}))
+				stmts = append(stmts, pr(sl(opName[o1]+"."+opName[o2]), ts.Cmp{Op: o1, L: ts.Bin{Op: o2, Ty: ts.TInt, L: a, R: b}, R: c}, ts.Cmp{Op: o1, L: a, R: ts.Bin{Op: o2, Ty: ts.TInt, L: b, R: c}}))
 			}
 			for _, o2 := range []string{"==", "!="} {
 				// a o1 b o2 true  parses as (a o1 b) o2 true
-				stmts = append(stmts, pr(sl(o1+o2), ts.Cmp{Op: o2, L: ts.Cmp{Op: o1, L: a, R: b}, R: bl(true)}, ts.Cmp{Op: o2, L: bl(false), R: ts.Group{E: ts.Cmp{Op: o1, L: b, R: c}}}))
+				stmts = append(stmts, pr(sl(opName[o1]+"."+opName[o2]), ts.Cmp{Op: o2, L: ts.Cmp{Op: o1, L: a, R: b}, R: bl(true)}, ts.Cmp{Op: o2, L: bl(false), R: ts.Group{E: ts.Cmp{Op: o1, L: b, R: c}}}))
 			}
 		}
 		progs = append(progs, ts.Single(stmts))
@@ -48,7 +51,7 @@ func c01SweepPrograms() []*ts.Program {
 		P, Q, R := vr("p", ts.TBool), vr("q", ts.TBool), vr("r", ts.TBool)
 		for _, o1 := range []string{"&&", "||"} {
 			for _, o2 := range []string{"&&", "||"} {
-				stmts = append(stmts, pr(sl(o1+o2),
+				stmts = append(stmts, pr(sl(opName[o1]+"."+opName[o2]),
 					ts.Logic{Op: o2, L: ts.Logic{Op: o1, L: P, R: Q}, R: R},
 					ts.Logic{Op: o1, L: P, R: ts.Logic{Op: o2, L: Q, R: R}},
 					ts.Logic{Op: o2, L: ts.Group{E: ts.Logic{Op: o1, L: P, R: Q}}, R: R},
